@@ -1,26 +1,773 @@
-//! C13 - not built yet.
-use crate::engine::{PropertyInfo, RunCtx};
+//! C13 - incremental analysis equals from-scratch analysis after any edit history.
+//!
+//! A case is a history of 1..40 operations `set(f, text)`, `remove(f)`, `query(kind, f)` over
+//! FileId 1..5 (see `c13/gen.rs`). The history is run twice against `trust_hir::Database`:
+//!
+//! * **full** pass: after EVERY operation every query kind is asked for ALL five files
+//!   (present or not) and the canonical, id-free rendering (`c13/render.rs`) is compared with
+//!   the rendering obtained from a brand-new `Database` into which the current texts were
+//!   loaded in FileId order. Everything is therefore memoised before every edit.
+//! * **pure** pass: a second `Database` sees only the operations of the history (so the set
+//!   of memoised queries before an edit is whatever the history asked); every query answer
+//!   is compared with the fresh database's answer to the same query; for up to eight
+//!   prefixes of the history (all of them for short histories) the prefix is replayed
+//!   into yet another `Database` and all files / all kinds are compared there.
+//!
+//! In both passes every query is issued twice in a row and must return an equal answer, and
+//! any panic (in the incremental or the fresh database) is a violation.
+
+use std::collections::BTreeMap;
+use std::sync::atomic::{AtomicBool, AtomicU32, AtomicU64, Ordering};
+use std::sync::Arc;
+
+use proptest::prelude::*;
+use serde_json::json;
+use trust_hir::db::{Database, FileId, SemanticDatabase, SourceDatabase};
+use trust_hir::types::TypeId;
+
+use crate::engine::tape::Tape;
+use crate::engine::{Probe, PropertyInfo, RunCtx};
+
+mod gen;
+mod render;
+
+use gen::{History, Op, QueryKind, NFILES};
 
 pub fn info() -> PropertyInfo {
     PropertyInfo {
         id: "C13",
         level: "exploration",
-        rule: "not built yet",
-        assumptions: &[],
-        workers_quick: 1,
-        workers_thorough: 1,
+        rule: "case = history of 1..40 ops {set, remove, query(diagnostics|analyze|file_symbols|type_of|expr_id_at_offset)} over FileId 1..5 with small edits of a cross-referencing generated project; non-trivial = the history contains an edit (set/remove) of file A after which the from-scratch answers for another, textually unchanged file B differ from before the edit while B had already been queried by the history since B's last own change, or it removes a file and later re-adds it; distinct by SHA-256 of the op list",
+        assumptions: &[
+            "single-threaded use of one Database (no concurrent edit/query; cancellation is not exercised)",
+            "the from-scratch database is loaded in ascending FileId order",
+            "files are FileId 1..5, texts <= ~3 KB (generated project) or mutated repository .st files <= 2.5 KB",
+        ],
+        workers_quick: 8,
+        workers_thorough: 16,
         address_space_limit: 0,
-        watchdog_quick_s: 600,
-        watchdog_thorough_s: 3600,
+        watchdog_quick_s: 900,
+        watchdog_thorough_s: 7200,
         run,
     }
 }
 
-/// Helper subcommands (child processes of this check); None = not mine.
-pub fn helper(_args: &[String]) -> Option<i32> {
-    None
+fn fid(f: usize) -> FileId {
+    FileId(f as u32 + 1)
+}
+
+// ---------------------------------------------------------------------------------------
+// answers
+
+#[derive(Clone, Debug, PartialEq, Eq)]
+enum Raw {
+    Diags(Arc<Vec<trust_hir::Diagnostic>>),
+    /// `FileAnalysis` is not nameable from outside the crate: keep its two public fields
+    Analysis(Arc<Vec<trust_hir::Diagnostic>>, Arc<trust_hir::symbols::SymbolTable>),
+    Symbols(Arc<trust_hir::symbols::SymbolTable>),
+    TypeAt(Option<u32>, Option<TypeId>),
+    Type(TypeId),
+    Expr(Option<u32>),
+}
+
+fn ask(db: &Database, kind: QueryKind, f: FileId, arg: u32) -> Raw {
+    match kind {
+        QueryKind::Diagnostics => Raw::Diags(db.diagnostics(f)),
+        QueryKind::Analyze => {
+            let a = db.analyze(f);
+            Raw::Analysis(a.diagnostics.clone(), a.symbols.clone())
+        }
+        QueryKind::FileSymbols => Raw::Symbols(db.file_symbols(f)),
+        QueryKind::TypeOfAt => {
+            let id = db.expr_id_at_offset(f, arg);
+            Raw::TypeAt(id, id.map(|id| db.type_of(f, id)))
+        }
+        QueryKind::TypeOfId => Raw::Type(db.type_of(f, arg)),
+        QueryKind::ExprAt => Raw::Expr(db.expr_id_at_offset(f, arg)),
+    }
+}
+
+/// Ask twice; the two answers must be equal (no edit in between).
+fn ask_twice(db: &Database, kind: QueryKind, f: FileId, arg: u32, who: &str) -> Result<Raw, String> {
+    let a = ask(db, kind, f, arg);
+    let b = ask(db, kind, f, arg);
+    if a != b {
+        return Err(format!(
+            "{who}: repeating {kind:?}(file {}, {arg}) without an intervening edit gives a different answer:\n first: {}\n second: {}",
+            f.0,
+            short(&render_raw(&a, None)),
+            short(&render_raw(&b, None))
+        ));
+    }
+    Ok(a)
+}
+
+/// Type without a table: builtin name or an opaque marker (user type numbering is internal).
+fn type_opaque(t: TypeId) -> String {
+    if t == TypeId::UNKNOWN {
+        "?".into()
+    } else if t == TypeId::VOID {
+        "VOID".into()
+    } else if let Some(n) = t.builtin_name() {
+        n.into()
+    } else if t.0 < TypeId::USER_TYPES_START {
+        format!("builtin#{}", t.0)
+    } else {
+        "<user type>".into()
+    }
+}
+
+/// Canonical rendering of one answer. `table` (the file's own analysis table in the same
+/// database) renders user types structurally; without it they are opaque.
+fn render_raw(raw: &Raw, table: Option<&trust_hir::symbols::SymbolTable>) -> Vec<String> {
+    let ty = |t: TypeId| match table {
+        Some(tab) => render::type_str(tab, t, 3),
+        None => type_opaque(t),
+    };
+    match raw {
+        Raw::Diags(d) => render::diagnostics(d),
+        Raw::Analysis(d, s) => {
+            let mut v = render::diagnostics(d);
+            v.push("--symbols--".into());
+            v.extend(render::symbol_table(s));
+            v
+        }
+        Raw::Symbols(s) => render::symbol_table(s),
+        Raw::TypeAt(id, t) => vec![format!(
+            "expr={id:?} type={}",
+            t.map(ty).unwrap_or_else(|| "-".into())
+        )],
+        Raw::Type(t) => vec![format!("type={}", ty(*t))],
+        Raw::Expr(id) => vec![format!("expr={id:?}")],
+    }
+}
+
+fn short(lines: &[String]) -> String {
+    let mut s = lines.iter().take(6).cloned().collect::<Vec<_>>().join(" | ");
+    if s.len() > 700 {
+        let mut end = 700;
+        while !s.is_char_boundary(end) {
+            end -= 1;
+        }
+        s.truncate(end);
+        s.push_str("...");
+    }
+    s
+}
+
+/// Lines only on one side (both lists sorted or at least comparable as multisets).
+fn diff_lines(inc: &[String], fresh: &[String]) -> String {
+    let mut count: BTreeMap<&str, i64> = BTreeMap::new();
+    for l in inc {
+        *count.entry(l.as_str()).or_default() += 1;
+    }
+    for l in fresh {
+        *count.entry(l.as_str()).or_default() -= 1;
+    }
+    let only_inc: Vec<&str> = count.iter().filter(|(_, c)| **c > 0).map(|(l, _)| *l).take(3).collect();
+    let only_fresh: Vec<&str> = count.iter().filter(|(_, c)| **c < 0).map(|(l, _)| *l).take(3).collect();
+    let cut = |s: &str| {
+        if s.len() > 400 {
+            let mut end = 400;
+            while !s.is_char_boundary(end) {
+                end -= 1;
+            }
+            format!("{}...", &s[..end])
+        } else {
+            s.to_string()
+        }
+    };
+    let mut out = String::new();
+    for l in only_inc {
+        out.push_str(&format!("\n   only incremental: {}", cut(l)));
+    }
+    for l in only_fresh {
+        out.push_str(&format!("\n   only from-scratch: {}", cut(l)));
+    }
+    if out.is_empty() {
+        out.push_str("\n   (same lines, different multiplicity or order)");
+    }
+    out
+}
+
+// ---------------------------------------------------------------------------------------
+// snapshots of all files
+
+#[derive(Clone, Debug, PartialEq, Eq, Default)]
+struct FileSnap {
+    diags: Vec<String>,
+    an_diags: Vec<String>,
+    an_syms: Vec<String>,
+    file_syms: Vec<String>,
+    exprs: Vec<String>,
+}
+
+#[derive(Clone, Debug, PartialEq, Eq, Default)]
+struct Snapshot {
+    files: Vec<FileSnap>,
+}
+
+/// Offsets probed for expression types in a full comparison: a function of the text only.
+fn probe_offsets(text: Option<&String>) -> Vec<u32> {
+    let Some(text) = text else {
+        return vec![0, 7];
+    };
+    let starts = gen::token_starts(text);
+    let mut out = Vec::new();
+    let want = 6usize;
+    if starts.len() <= want {
+        out.extend(starts.iter().copied());
+    } else {
+        for k in 0..want {
+            // from the end of the file backwards (statement parts are at the end of a POU)
+            out.push(starts[starts.len() - 1 - k * (starts.len() - 1) / (want - 1)]);
+        }
+    }
+    out.push(text.len() as u32);
+    out
+}
+
+/// Ask everything about every file. `rot` varies the order in which files and kinds are
+/// asked (it decides which memoised result is revalidated first after an edit).
+fn snapshot(db: &Database, texts: &[Option<String>], rot: usize, who: &str) -> Result<Snapshot, String> {
+    let mut files = vec![FileSnap::default(); NFILES];
+    for i in 0..NFILES {
+        let f = (i + rot) % NFILES;
+        let id = fid(f);
+        let mut snap = FileSnap::default();
+        let kinds: [u8; 4] = if (rot / NFILES) % 2 == 0 { [0, 1, 2, 3] } else { [3, 2, 1, 0] };
+        let mut table: Option<Arc<trust_hir::symbols::SymbolTable>> = None;
+        let mut pending_exprs: Vec<(u32, Raw)> = Vec::new();
+        for k in kinds {
+            match k {
+                0 => {
+                    let r = ask_twice(db, QueryKind::Diagnostics, id, 0, who)?;
+                    snap.diags = render_raw(&r, None);
+                }
+                1 => {
+                    let r = ask_twice(db, QueryKind::Analyze, id, 0, who)?;
+                    if let Raw::Analysis(d, s) = &r {
+                        snap.an_diags = render::diagnostics(d);
+                        snap.an_syms = render::symbol_table(s);
+                        table = Some(s.clone());
+                    }
+                }
+                2 => {
+                    let r = ask_twice(db, QueryKind::FileSymbols, id, 0, who)?;
+                    snap.file_syms = render_raw(&r, None);
+                }
+                _ => {
+                    for off in probe_offsets(texts[f].as_ref()) {
+                        let r = ask_twice(db, QueryKind::TypeOfAt, id, off, who)?;
+                        pending_exprs.push((off, r));
+                    }
+                    let r = ask_twice(db, QueryKind::TypeOfId, id, 0, who)?;
+                    pending_exprs.push((u32::MAX, r));
+                }
+            }
+        }
+        let table = match table {
+            Some(t) => t,
+            None => db.analyze(id).symbols.clone(),
+        };
+        for (off, r) in pending_exprs {
+            snap.exprs.push(format!("@{off}: {}", render_raw(&r, Some(&table)).join(" ")));
+        }
+        files[f] = snap;
+    }
+    Ok(Snapshot { files })
+}
+
+/// Evidence counters (per worker process): answers compared with the from-scratch side.
+static COMPARED_SNAPSHOT_PARTS: AtomicU64 = AtomicU64::new(0);
+static COMPARED_QUERIES: AtomicU64 = AtomicU64::new(0);
+static FRESH_DATABASES: AtomicU64 = AtomicU64::new(0);
+
+fn compare_snapshots(inc: &Snapshot, fresh: &Snapshot, ctx: &str) -> Result<(), String> {
+    COMPARED_SNAPSHOT_PARTS.fetch_add((NFILES * 5) as u64, Ordering::Relaxed);
+    for f in 0..NFILES {
+        let a = &inc.files[f];
+        let b = &fresh.files[f];
+        let parts: [(&str, &Vec<String>, &Vec<String>); 5] = [
+            ("diagnostics()", &a.diags, &b.diags),
+            ("analyze().diagnostics", &a.an_diags, &b.an_diags),
+            ("analyze().symbols", &a.an_syms, &b.an_syms),
+            ("file_symbols()", &a.file_syms, &b.file_syms),
+            ("type_of(expr_id_at_offset())", &a.exprs, &b.exprs),
+        ];
+        for (what, x, y) in parts {
+            if x != y {
+                return Err(format!(
+                    "{ctx}: {what} of file {} differs from a brand-new database with the same texts:{}",
+                    f + 1,
+                    diff_lines(x, y)
+                ));
+            }
+        }
+    }
+    Ok(())
+}
+
+// ---------------------------------------------------------------------------------------
+// from-scratch side, one per distinct text state of the history
+
+struct Fresh {
+    texts: Vec<Option<String>>,
+    db: Database,
+    snap: Option<Snapshot>,
+}
+
+impl Fresh {
+    fn new(texts: &[Option<String>]) -> Fresh {
+        FRESH_DATABASES.fetch_add(1, Ordering::Relaxed);
+        let mut db = Database::new();
+        for (f, t) in texts.iter().enumerate() {
+            if let Some(t) = t {
+                db.set_source_text(fid(f), t.clone());
+            }
+        }
+        Fresh {
+            texts: texts.to_vec(),
+            db,
+            snap: None,
+        }
+    }
+
+    fn snapshot(&mut self) -> Result<&Snapshot, String> {
+        if self.snap.is_none() {
+            self.snap = Some(snapshot(&self.db, &self.texts, 0, "from-scratch database")?);
+        }
+        Ok(self.snap.as_ref().unwrap())
+    }
+}
+
+/// States of a history: `state_after[k]` = index into `states` after op k.
+struct States {
+    states: Vec<Fresh>,
+    state_after: Vec<usize>,
+}
+
+fn apply_to_texts(texts: &mut [Option<String>], op: &Op) -> bool {
+    match op {
+        Op::Set { f, text } => {
+            let f = *f as usize % NFILES;
+            if texts[f].as_ref() == Some(text) {
+                false
+            } else {
+                texts[f] = Some(text.clone());
+                true
+            }
+        }
+        Op::Remove { f } => texts[*f as usize % NFILES].take().is_some(),
+        Op::Query { .. } => false,
+    }
+}
+
+fn build_states(h: &History) -> States {
+    let mut texts: Vec<Option<String>> = vec![None; NFILES];
+    let mut states = vec![Fresh::new(&texts)];
+    let mut state_after = Vec::with_capacity(h.ops.len());
+    for op in &h.ops {
+        if apply_to_texts(&mut texts, op) {
+            states.push(Fresh::new(&texts));
+        }
+        state_after.push(states.len() - 1);
+    }
+    States { states, state_after }
+}
+
+fn apply_to_db(db: &mut Database, op: &Op) {
+    match op {
+        Op::Set { f, text } => db.set_source_text(fid(*f as usize % NFILES), text.clone()),
+        Op::Remove { f } => db.remove_source_text(fid(*f as usize % NFILES)),
+        Op::Query { .. } => {}
+    }
+}
+
+fn describe(op: &Op) -> String {
+    match op {
+        Op::Set { f, text } => format!("set(file {}, {} bytes)", *f as usize % NFILES + 1, text.len()),
+        Op::Remove { f } => format!("remove(file {})", *f as usize % NFILES + 1),
+        Op::Query { kind, f, arg } => format!("query({kind:?}, file {}, {arg})", *f as usize % NFILES + 1),
+    }
+}
+
+/// Run one query of the history against the incremental database and the fresh one.
+fn check_query(
+    db: &Database,
+    fresh: &Fresh,
+    kind: QueryKind,
+    f: usize,
+    arg: u32,
+    structural: bool,
+    ctx: &str,
+) -> Result<Raw, String> {
+    let id = fid(f);
+    let a = ask_twice(db, kind, id, arg, "incremental database")?;
+    let b = ask_twice(&fresh.db, kind, id, arg, "from-scratch database")?;
+    let (ra, rb) = if structural && matches!(kind, QueryKind::TypeOfAt | QueryKind::TypeOfId) {
+        let ta = db.analyze(id).symbols.clone();
+        let tb = fresh.db.analyze(id).symbols.clone();
+        (render_raw(&a, Some(&ta)), render_raw(&b, Some(&tb)))
+    } else {
+        (render_raw(&a, None), render_raw(&b, None))
+    };
+    COMPARED_QUERIES.fetch_add(1, Ordering::Relaxed);
+    if ra != rb {
+        return Err(format!(
+            "{ctx}: answer of {kind:?}(file {}, {arg}) differs from a brand-new database with the same texts:{}",
+            f + 1,
+            diff_lines(&ra, &rb)
+        ));
+    }
+    // source_text is the input itself; it must read back
+    let t = db.source_text(id);
+    let expect = fresh.texts[f].clone().unwrap_or_default();
+    if *t != expect {
+        return Err(format!("{ctx}: source_text(file {}) is not the text last set", f + 1));
+    }
+    Ok(a)
+}
+
+/// Full pass: after every op ask everything about every file on the same database.
+fn full_pass(h: &History, st: &mut States) -> Result<(), String> {
+    let mut db = Database::new();
+    for (k, op) in h.ops.iter().enumerate() {
+        let ctx = format!("[full pass] after op {k} = {}", describe(op));
+        apply_to_db(&mut db, op);
+        let fresh = &mut st.states[st.state_after[k]];
+        if let Op::Query { kind, f, arg } = op {
+            let _ = check_query(&db, fresh, *kind, *f as usize % NFILES, *arg, true, &ctx)?;
+        }
+        let texts = fresh.texts.clone();
+        let inc = snapshot(&db, &texts, k, "incremental database")?;
+        compare_snapshots(&inc, fresh.snapshot()?, &ctx)?;
+    }
+    Ok(())
+}
+
+/// Pure pass: the database sees only the history's own operations.
+fn pure_pass(h: &History, st: &mut States) -> Result<(), String> {
+    let n = h.ops.len();
+    let mut db = Database::new();
+    // answers given since the last set/remove: the same query must give the same answer
+    // again, however many other queries were asked in between
+    let mut since_edit: Vec<((QueryKind, usize, u32), usize, Raw)> = Vec::new();
+    for (k, op) in h.ops.iter().enumerate() {
+        let ctx = format!("[pure pass] op {k} = {}", describe(op));
+        apply_to_db(&mut db, op);
+        match op {
+            Op::Query { kind, f, arg } => {
+                let f = *f as usize % NFILES;
+                let fresh = &st.states[st.state_after[k]];
+                let a = check_query(&db, fresh, *kind, f, *arg, false, &ctx)?;
+                let key = (*kind, f, *arg);
+                if let Some((_, k0, old)) = since_edit.iter().find(|(q, _, _)| *q == key) {
+                    if *old != a {
+                        return Err(format!(
+                            "{ctx}: the same query was answered differently at op {k0} and no set/remove happened in between:\n first: {}\n now: {}",
+                            short(&render_raw(old, None)),
+                            short(&render_raw(&a, None))
+                        ));
+                    }
+                } else {
+                    since_edit.push((key, k, a));
+                }
+            }
+            _ => since_edit.clear(),
+        }
+    }
+    // all files / all kinds at the end of selected prefixes, each on a database that has
+    // seen nothing but that prefix
+    let prefixes: Vec<usize> = if n <= 8 {
+        (1..=n).collect()
+    } else {
+        let mut v: Vec<usize> = (1..=8).map(|i| i * n / 8).collect();
+        v.dedup();
+        v
+    };
+    for p in prefixes {
+        let ctx = format!(
+            "[pure pass] prefix of {p} ops (last = {})",
+            describe(&h.ops[p - 1])
+        );
+        let replayed;
+        let dbp: &Database = if p == n {
+            &db
+        } else {
+            let mut d = Database::new();
+            for op in &h.ops[..p] {
+                apply_to_db(&mut d, op);
+                if let Op::Query { kind, f, arg } = op {
+                    let _ = ask(&d, *kind, fid(*f as usize % NFILES), *arg);
+                }
+            }
+            replayed = d;
+            &replayed
+        };
+        let fresh = &mut st.states[st.state_after[p - 1]];
+        let texts = fresh.texts.clone();
+        let inc = snapshot(dbp, &texts, p, "incremental database")?;
+        compare_snapshots(&inc, fresh.snapshot()?, &ctx)?;
+    }
+    Ok(())
+}
+
+fn classify(h: &History, st: &mut States, probe: &mut Probe) -> Result<(), String> {
+    let n = h.ops.len();
+    probe.label(format!(
+        "ops={}",
+        match n {
+            0..=5 => "1-5",
+            6..=15 => "6-15",
+            16..=30 => "16-30",
+            _ => "31-40",
+        }
+    ));
+    for w in &h.how {
+        if w != "query" {
+            probe.label(format!("edit={w}"));
+        }
+    }
+    let mut queried_since_change = [false; NFILES];
+    let mut removed_once = [false; NFILES];
+    let mut readd = false;
+    let mut cross = 0u32;
+    let mut cross_on_queried = 0u32;
+    let mut prev_state = 0usize;
+    let mut partial = false;
+    for (k, op) in h.ops.iter().enumerate() {
+        let s = st.state_after[k];
+        match op {
+            Op::Query { kind, f, .. } => {
+                let f = *f as usize % NFILES;
+                queried_since_change[f] = true;
+                probe.label(format!("query={kind:?}"));
+                if st.states[s].texts[f].is_none() {
+                    probe.label("query_absent_file");
+                }
+            }
+            Op::Set { f, .. } | Op::Remove { f } => {
+                let f = *f as usize % NFILES;
+                if s != prev_state {
+                    let before = st.states[prev_state].snapshot()?.clone();
+                    let after = st.states[s].snapshot()?.clone();
+                    let mut hit = false;
+                    let mut hit_queried = false;
+                    for b in 0..NFILES {
+                        if b == f || st.states[s].texts[b].is_none() {
+                            continue;
+                        }
+                        if before.files[b] != after.files[b] {
+                            hit = true;
+                            if queried_since_change[b] {
+                                hit_queried = true;
+                            }
+                        }
+                    }
+                    if hit {
+                        cross += 1;
+                    }
+                    if hit_queried {
+                        cross_on_queried += 1;
+                    }
+                    if matches!(op, Op::Remove { .. }) {
+                        removed_once[f] = true;
+                    } else if removed_once[f] && st.states[prev_state].texts[f].is_none() {
+                        readd = true;
+                    }
+                    queried_since_change[f] = false;
+                }
+            }
+        }
+        prev_state = s;
+    }
+    for s in &st.states {
+        for t in s.texts.iter().flatten() {
+            if !trust_syntax::parser::parse(t).ok() {
+                partial = true;
+            }
+        }
+    }
+    if cross > 0 {
+        probe.label("cross_file_effect");
+    }
+    if cross_on_queried > 0 {
+        probe.label("cross_file_effect_on_queried_file");
+    }
+    if readd {
+        probe.label("remove_then_readd");
+    }
+    if partial {
+        probe.label("has_partially_parsing_file");
+    }
+    let max_files = st
+        .states
+        .iter()
+        .map(|s| s.texts.iter().flatten().count())
+        .max()
+        .unwrap_or(0);
+    probe.label(format!("max_files={max_files}"));
+    if cross_on_queried > 0 || readd {
+        let key = serde_json::to_vec(&h.ops).unwrap_or_default();
+        probe.nontrivial(&key);
+        probe.sample(json!({
+            "ops": h.ops.iter().map(describe).collect::<Vec<_>>(),
+            "how": h.how,
+            "cross_file_effects": cross,
+            "on_already_queried_file": cross_on_queried,
+            "remove_then_readd": readd,
+        }));
+    }
+    Ok(())
+}
+
+/// Shrinking budget. After the first failing generated case of this worker every further
+/// call is a shrink candidate (the engine stops generating); a candidate costs up to 0.5 s
+/// and proptest would try 4096 of them, so only the first `SHRINK_BUDGET` candidates are
+/// really evaluated - later ones are declared "not simpler" (Ok), which ends the shrinking
+/// with the smallest case that really failed. Count-based, hence deterministic.
+static FAILED: AtomicBool = AtomicBool::new(false);
+static SHRINK_CALLS: AtomicU32 = AtomicU32::new(0);
+const SHRINK_BUDGET: u32 = 500;
+
+fn check_history(h: &History, probe: &mut Probe) -> Result<(), String> {
+    if h.ops.is_empty() {
+        return Ok(());
+    }
+    if h.generated
+        && FAILED.load(Ordering::Relaxed)
+        && SHRINK_CALLS.fetch_add(1, Ordering::Relaxed) >= SHRINK_BUDGET
+    {
+        return Ok(());
+    }
+    let res = crate::engine::catch(|| check_history_inner(h, probe)).and_then(|r| r);
+    if res.is_err() && h.generated {
+        FAILED.store(true, Ordering::Relaxed);
+    }
+    res
+}
+
+fn check_history_inner(h: &History, probe: &mut Probe) -> Result<(), String> {
+    let mut st = build_states(h);
+    full_pass(h, &mut st)?;
+    pure_pass(h, &mut st)?;
+    classify(h, &mut st, probe)?;
+    Ok(())
+}
+
+fn history_strategy() -> impl Strategy<Value = History> {
+    // own word mix: a history needs ~10 words per op, so the tape has a minimum length, and
+    // the boundary words (0, MAX, k<<28) are rarer than in the shared tape strategy
+    let word = prop_oneof![
+        12 => any::<u32>(),
+        2 => (0u32..16).prop_map(|v| v << 28),
+        1 => Just(0u32),
+        1 => Just(u32::MAX),
+    ];
+    (
+        // first component = shrunk first; shrinks towards `false` = drop the op (any op list
+        // is a valid history)
+        proptest::collection::vec(proptest::bool::weighted(1.0), gen::MAX_OPS),
+        proptest::collection::vec(word, 120..900).prop_map(|data| Tape { data }),
+    )
+        .prop_map(|(keep, tape)| {
+            let h = gen::history_from_tape(&tape);
+            let mut ops = Vec::new();
+            let mut how = Vec::new();
+            for (i, op) in h.ops.into_iter().enumerate() {
+                if keep.get(i).copied().unwrap_or(true) {
+                    ops.push(op);
+                    how.push(h.how.get(i).cloned().unwrap_or_default());
+                }
+            }
+            History {
+                ops,
+                how,
+                generated: true,
+            }
+        })
 }
 
 fn run(ctx: &mut RunCtx) {
-    ctx.inconclusive("check not built yet");
+    let tier = ctx.tier;
+    ctx.search(
+        "history",
+        history_strategy(),
+        tier.pick(400, 20_000),
+        check_history,
+    );
+    if !FAILED.load(Ordering::Relaxed) {
+        ctx.note(format!(
+            "worker {}: {} per-file answer groups (diagnostics / analyze diagnostics / analyze symbols / file symbols / expression types) and {} single query answers compared with {} brand-new databases",
+            ctx.worker,
+            COMPARED_SNAPSHOT_PARTS.load(Ordering::Relaxed),
+            COMPARED_QUERIES.load(Ordering::Relaxed),
+            FRESH_DATABASES.load(Ordering::Relaxed)
+        ));
+    }
+}
+
+/// Helper subcommands (child processes of this check); None = not mine.
+/// `tpv c13-dump <seed-cases>`: print a few generated histories (development aid).
+pub fn helper(args: &[String]) -> Option<i32> {
+    if args.first().map(|s| s.as_str()) != Some("c13-dump") {
+        return None;
+    }
+    use proptest::strategy::ValueTree;
+    use proptest::test_runner::{Config, RngSeed, TestRunner};
+    let n: usize = args.get(1).and_then(|s| s.parse().ok()).unwrap_or(3);
+    let verbose = args.get(2).map(|s| s == "-v").unwrap_or(false);
+    let mut runner = TestRunner::new(Config {
+        rng_seed: RngSeed::Fixed(7),
+        ..Config::default()
+    });
+    let strat = history_strategy();
+    let started = std::time::Instant::now();
+    let mut clean = 0;
+    let mut total_files = 0;
+    for i in 0..n {
+        let h = strat.new_tree(&mut runner).unwrap().current();
+        for (k, op) in h.ops.iter().enumerate() {
+            if let Op::Set { text, .. } = op {
+                total_files += 1;
+                if trust_syntax::parser::parse(text).ok() {
+                    clean += 1;
+                }
+                if verbose {
+                    println!("--- case {i} op {k} {} [{}]\n{text}", describe(op), h.how[k]);
+                }
+            } else if verbose {
+                println!("--- case {i} op {k} {}", describe(op));
+            }
+        }
+        let t0 = std::time::Instant::now();
+        let mut probe = Probe::default();
+        let res = crate::engine::catch(|| check_history(&h, &mut probe)).and_then(|r| r);
+        println!(
+            "case {i}: {} ops, {:?}, {} ms, labels {:?}",
+            h.ops.len(),
+            res,
+            t0.elapsed().as_millis(),
+            if verbose { probe.labels.clone() } else { Vec::new() }
+        );
+        if verbose {
+            // final state diagnostics, to see what the generator's project looks like
+            let st = build_states(&h);
+            if let Some(last) = st.states.last() {
+                for f in 0..NFILES {
+                    if last.texts[f].is_some() {
+                        for d in last.db.diagnostics(fid(f)).iter() {
+                            println!("   file {} {}", f + 1, d);
+                        }
+                    }
+                }
+            }
+        }
+    }
+    println!(
+        "{n} cases in {} ms; {clean}/{total_files} set texts parse without errors",
+        started.elapsed().as_millis()
+    );
+    Some(0)
 }
